@@ -91,7 +91,7 @@ def garbage_direction_last(act, x_scale):
     return (not np.isfinite(dn)) or dn > 1e6 * max(1.0, x_scale)
 
 
-def compare_restart(problem, cfg, blob, x_ref, maxiter, pseed, stats, n_pert=3, ref_act=None, rel_step_tol=0.0):
+def compare_restart(problem, cfg, blob, x_ref, maxiter, pseed, stats, n_pert=3, ref_act=None, rel_step_tol=None):
     """DESIGN 7.2: is the restart as close to the reference as rounding allows?
 
     Returns (verdict, info): verdict in {"ok", "vacuous", "fail", "raised"}.
@@ -133,6 +133,12 @@ def compare_restart(problem, cfg, blob, x_ref, maxiter, pseed, stats, n_pert=3, 
         for j in range(i + 1, len(xs)):
             spread = max(spread, float(np.max(np.abs(xs[i] - xs[j]))))
     step = float(np.max(np.abs(x_ref - pickle.loads(blob).x))) if x.size else 0.0
+    if rel_step_tol is None:
+        # one-ulp differences of the trial points reach the iterate through the line-search
+        # interpolation: amplified by about 1/h ~ 1e8 with finite-difference gradients, by the
+        # conditioning of f, g with exact ones. Perturbing the stored pairs does not always
+        # sample that (n = 1, a single pair), so a floor relative to the step is part of "rounding".
+        rel_step_tol = 1e-9 if cfg.get("jac", "callable") == "callable" else 1e-6
     # rel_step_tol > 0 (comparisons more than one iteration ahead): a one-ulp difference of the
     # intermediate iterate is amplified by the conditioning of the problem before it reaches x
     tol = 1e3 * spread + floor + rel_step_tol * step
